@@ -598,6 +598,8 @@ func runC14(c *Ctx, r *Rec) {
 	r.floor("D3-views", 3)
 	checkNoSecondLookup(c, r, "D3-view-values-from-entries")
 	checkResetCompleteness(c, r, "D1-reset-complete", mp)
+	checkResultsAreCollections(c, r, "D1-result-is-a-collection", mp)
+	checkNoReadBackOfRangedMap(c, r, "D2-values-from-the-ranged-pairs", fileFuncs(c, "collection", mp))
 	checkTypeLockPairing(c, r, "D1-lock-released", mp)
 
 	// ---- D4 loops
@@ -855,6 +857,72 @@ func checkNoSecondLookup(c *Ctx, r *Rec, rule string) {
 			r.skip(rule, construct, c.pos(fd.Pos()), "no association is made in a loop of this method")
 		default:
 			r.ok(rule, construct, c.pos(fd.Pos()), "no association's value comes from a second lookup of the key")
+		}
+	}
+}
+
+// checkNoReadBackOfRangedMap: a function that visits the entries of a Go map parameter with
+// range and also reads the same map by key inside a loop takes the values through a second
+// lookup.  The lookup compares with ==, and a key that does not equal itself (a float NaN,
+// possible for every comparable type parameter) is never found: the entry range did visit is
+// turned into the zero value.  The value belongs to the pair range hands out.
+func checkNoReadBackOfRangedMap(c *Ctx, r *Rec, rule string, fds []*ast.FuncDecl) {
+	for _, fd := range fds {
+		info := c.infoFor(fd)
+		if info == nil || fd.Body == nil {
+			continue
+		}
+		for _, p := range paramObjs(info, fd) {
+			mt, ok := p.Type().Underlying().(*types.Map)
+			if !ok {
+				continue
+			}
+			// keys that can be unequal to themselves: type parameters, floats, complex, interfaces, structs/arrays
+			switch kt := mt.Key().Underlying().(type) {
+			case *types.Basic:
+				if kt.Info()&(types.IsFloat|types.IsComplex) == 0 {
+					continue
+				}
+			}
+			ranged := false
+			ast.Inspect(fd.Body, func(x ast.Node) bool {
+				if rs, ok := x.(*ast.RangeStmt); ok && isObj(info, rs.X, p) {
+					ranged = true
+				}
+				return true
+			})
+			if !ranged {
+				continue
+			}
+			bad := ""
+			for _, l := range loopsIn(fd.Body) {
+				ast.Inspect(l, func(x ast.Node) bool {
+					switch s := x.(type) {
+					case *ast.AssignStmt:
+						// m[k] = v is a write
+						for _, rh := range s.Rhs {
+							ast.Inspect(rh, func(y ast.Node) bool {
+								if ix, ok := y.(*ast.IndexExpr); ok && isObj(info, ix.X, p) && bad == "" {
+									bad = fmt.Sprintf("%s at %s", exprStr(ix), c.pos(ix.Pos()))
+								}
+								return true
+							})
+						}
+						return false
+					case *ast.IndexExpr:
+						if isObj(info, s.X, p) && bad == "" {
+							bad = fmt.Sprintf("%s at %s", exprStr(s), c.pos(s.Pos()))
+						}
+					}
+					return true
+				})
+			}
+			construct := c.fdName(fd) + "/" + p.Name()
+			if bad != "" {
+				r.fail(rule, construct, c.pos(fd.Pos()), fmt.Sprintf("the entries of the Go map %s are visited with range, but a value is taken with a second lookup %s: for a key that does not equal itself (NaN) the lookup finds nothing and the entry that range visited is replaced by the zero value", p.Name(), bad))
+			} else {
+				r.ok(rule, construct, c.pos(fd.Pos()), "the values come from the pairs that range hands out")
+			}
 		}
 	}
 }
